@@ -3,11 +3,11 @@ CONSTANTS
     Machine = "rot"
     CIDS = {"c1","c2","c3"}
     VALS = {"vA","vB"}
-    MAXIDX = 4
-    INITS <- AllInits
+    MAXIDX = 12
+    INITS <- WideInits
     ROTOPS = {"save","clean","mklogs"}
-    KEEPS = {1,2,3}
-    MAXOPS = 4
+    KEEPS = {10,11,12}
+    MAXOPS = 3
     MAXCLEAN = 3
     PEERS = {"p1","p2","p3"}
     ADDRSETS <- AddrSetsFull
